@@ -23,5 +23,11 @@ meta = {
     'checks_run': {k: {'exit': v['rc'], 'violation_lines': v['violation_lines'], 'first_failing_input': (v.get('replay') or {}).get('what'),
                        'broken_ties': (v.get('replay') or {}).get('broken_ties'), 'wall_s': v['wall_s']} for k, v in d.get('checks', {}).items()},
 }
+try:
+    _old = json.load(open(os.path.join(dst, 'meta.json')))
+    if 'before_strengthening' in _old:
+        meta['before_strengthening'] = _old['before_strengthening']      # the first-run outcome is kept
+except Exception:
+    pass
 json.dump(meta, open(os.path.join(dst, 'meta.json'), 'w'), indent=1)
 print(dst, d.get('confirmed'))
